@@ -209,9 +209,10 @@ def gen_case_modes(seed, i):
     items = [[k, v] for k, v in modes.items() if v is not None] + fields
     r.shuffle(items)
     sep = r.choice([" ", "\n", "  ", " \n "])
+    via_group = r.random() < 0.3
     comment = free + ("" if not free else sep) + sep.join(f"{k}:{r.choice(['', ' ', '  '])}{v}" for k, v in items)
     return {"recs": recs, "scan": sp, "match": mp, "modes": modes, "fields": fields, "comment": comment,
-            "free": free, "profile": prof, "after": r.choice(["", " ", "\n"])}
+            "free": free, "profile": prof, "after": r.choice(["", " ", "\n"]), "via_group": via_group}
 
 
 def subseq(small, big):
@@ -326,4 +327,20 @@ def case_modes(case):
     else:
         if out["unmatched"]:
             res["oracle"].append({"what": "unmatched lines kept without unmatched-mode: keep", "unmatched": out["unmatched"][:3]})
+    # --- the written modes take effect whoever creates and drives the CsvPath: the same csvpath as the only member of a
+    #     named-paths group, run path-major and line-major (where CsvPaths presets the return mode before the comment is read)
+    if case.get("via_group") and not has_cycle(out.get("variables")) and not out.get("errors"):
+        import real_group as RG
+        import realenv
+
+        for method in ("collect_paths", "collect_by_line"):
+            realenv.reset_dirs()
+            cp = RG.new_csvpaths(policy=["collect", "print"], csvpath_policy=["collect", "print"])
+            RG.setup_group(cp, "g", [f"~{case['comment']}~{case['after']}$[{case['scan']}][{case['match']}]"], "food", recs)
+            caller, mobs, raised = RG.run_group(cp, "g", "food", method)
+            if raised or len(mobs) != 1:
+                res["oracle"].append({"what": f"modes: the csvpath runs alone but {method} raised {raised}"})
+            elif mobs[0]["lines"] != lines:
+                res["oracle"].append({"what": f"modes: lines differ between a standalone run and {method} (a mode setting did not take effect)",
+                                      "alone": lines, "group": mobs[0]["lines"], "modes": modes})
     return res
